@@ -321,6 +321,32 @@ def pin_perms(n):
     return sorted(pin.words_of_perm_table(n))
 
 
+def non_pin_perms(n=6):
+    """permutations that no pin word encodes (none below length 6; 56 of the 720 of length 6):
+    their automaton accepts nothing"""
+    tab = pin.words_of_perm_table(n)
+    return [p for p in ref.perms(n) if p not in tab]
+
+
+def shard_non_pin(acc, shard, nshards, per_shard, L):
+    """bases mixing a permutation without pin words with ordinary ones, in both list orders:
+    an element contributing nothing must not silence the others (either route)"""
+    os.chdir(engine.fresh_dir("dfa"))
+    nonpin = non_pin_perms(6)
+    pins6 = pin_perms(6)
+    small = [list(q) for q in ref.perms_upto(4, 3)]
+    mine = [q for i, q in enumerate(nonpin) if i % nshards == shard][:per_shard]
+    for j, q in enumerate(mine):
+        a = small[(7 * shard + 11 * j) % len(small)]
+        # a pin permutation of the same length that sorts after q (q is then the smallest element
+        # of the basis in the library's canonical order), chosen by a shard-dependent offset
+        later = [r for r in pins6 if r > q] or pins6
+        b = list(later[(13 * shard + 29 * j) % len(later)])
+        q2 = list(nonpin[(nonpin.index(q) + 17) % len(nonpin)])
+        for basis in ([list(q), a], [a, list(q)], [list(q), b], [b, list(q)], [list(q), q2, a], [list(q)]):
+            _run_basis(acc, basis, L)
+
+
 @st.composite
 def basis_cases(draw, max_len):
     k = draw(st.integers(1, 3))
@@ -369,6 +395,7 @@ def shard_generated(acc, shard, nshards, n_bases, max_len, L):
 
 
 def run(acc, tier):
+    engine.pmap(acc, shard_non_pin, extra=((1, 7) if tier == "quick" else (4, 9)))
     if tier == "quick":
         engine.pmap(acc, shard_exhaustive, extra=(4, 9))
         engine.pmap(acc, shard_pairs_finite, extra=(3,))
